@@ -413,6 +413,7 @@ func enumC20(env *EnumEnv, it *WorkItem) *EnumResult {
 		left int // calls still allowed after the first misuse (-1 = no misuse yet)
 	}
 	seenKey := map[string]bool{}
+	distinct := map[string]bool{}
 	reported := map[string]bool{}
 	frontier := []node{{seq: nil, left: -1}}
 	idx := 0
@@ -437,9 +438,14 @@ func enumC20(env *EnumEnv, it *WorkItem) *EnumResult {
 				}
 				idx++
 				mine := idx%it.NShards == it.Shard
+				// distinct cases: (abstract state reached, last call); counted in the shard the key hashes to
+				dk := ref.key() + "<" + string(c)
+				if int(hashStr(dk)%uint64(it.NShards)) == it.Shard && !distinct[dk] {
+					distinct[dk] = true
+					res.Distinct++
+				}
 				if mine {
 					res.Evaluations++
-					res.Distinct++
 					if rule, sig, msg := checkBuilderSeq(seq); rule != "" {
 						k := rule + "|" + sig
 						if !reported[k] {
@@ -484,7 +490,7 @@ func init() {
 		Level: "exploration",
 		Rule: "breadth-first enumeration of ALL call sequences over 26 call variants (AddChecks x 9 incl. nil / nil action / unknown kind / pre-filled, AddBlock x 3, AddSequence x 5, AddAction x 5, Up, Plan, Reset ok/blank) up to depth 6 (8): correct prefixes are merged by the abstract state of a reference builder " +
 			"(cursor chain with filled check slots and child counts capped at 2, emitted flag), after the first misuse every extension by 2 (3) further calls is enumerated; each sequence runs on a fresh real builder and on the reference interpreter, compared after every call " +
-			"(Err(), Plan() result, deep equality with the directly constructed plan, panics); distinct_nontrivial = sequences evaluated (all distinct by construction, none is the empty sequence)",
+			"(Err(), Plan() result, deep equality with the directly constructed plan, panics); distinct_nontrivial = distinct (abstract reference state reached, last call) pairs among the evaluated sequences",
 		Assumptions: []string{"stickiness is checked for 2 (3) calls after the first misuse, not for arbitrarily long suffixes", "child counts above 2 are merged"},
 		Items:       func(tier string) []WorkItem { return shardItems("C20", 16) },
 		Enum:        enumC20,
